@@ -860,7 +860,11 @@ def exec_step_schedule(ctx, res, nthreads, sched, origin):
                     violation("container protocol: " + c)
                 if violated:
                     break
-            final_live = " ".join("%s#%d" % (hx(gw.id), registered.index(gw)) for gw in group)
+            strangers = [gw for gw in group if gw not in registered]
+            if strangers and not violated:
+                violation("the group holds gateways that no successful makegateway call returned: %r (a call raised after registering)"
+                          % ([gw.id for gw in strangers],))
+            final_live = " ".join("%s#%d" % (hx(gw.id), registered.index(gw) if gw in registered else -1) for gw in group)
             final_res = " ".join(sorted(hx(i) for i in inflight.values()))
             final = "%s | live %s | reserved %s | counter %d" % (" ".join(outcomes), final_live, final_res, group._autoidcounter)
             # let every parked thread out (creation fails), then nothing may be left behind
